@@ -33,7 +33,8 @@ func (Prop) SelfTest() error {
 const horizon = 11
 
 func (Prop) Rule() string {
-	return "E1 on real generators at SECURITY_LEVEL_TEST (interval 8) for 9 instances (Hash{SM3-GM, SHA-256, SHA-512}, HMAC{SM3 gm-flag, SHA-256}, CTR{SM4-GM, SM4-NIST, AES-128, AES-256}): " +
+	return "Added dimensions: Hash_DRBG and HMAC_DRBG over every accepted hash (SHA-1, SHA-224, SHA-256, SHA-384, SHA-512, SHA-512/224, SHA-512/256, SM3) on a fixed 8-step script; argument layout (entropy/nonce/personalisation and entropy/additional input carved from one record in every order with capacities reaching to its end; outputs = reference, record unmodified). " +
+		"E1 on real generators at SECURITY_LEVEL_TEST (interval 8) for 9 instances (Hash{SM3-GM, SHA-256, SHA-512}, HMAC{SM3 gm-flag, SHA-256}, CTR{SM4-GM, SM4-NIST, AES-128, AES-256}): " +
 		"alphabet Generate(n,addl) n in {0,1,hs-1,hs,hs+1,max-1,max,max+1} x addl in {0,1,64 bytes}, Reseed(e,addl) e in {0,31,32,64} x addl in {0,1,64} plus Reseed(1), Elapse (clock seam); " +
 		"all histories of length 11 made of the default Generate(hs,none) with <= 2 departures over the full alphabet (both tiers) and <= 3 departures over a reduced 19/17-op alphabet (thorough), " +
 		"BFS with merging on identical (complete private state dump + model state) to depth 3 (quick) / 4 (thorough) from the fresh state and from the state one call before the interval; " +
@@ -81,6 +82,8 @@ func repeat(x, n int) []int {
 }
 
 func (Prop) Run(c *engine.Ctx) {
+	runHashVariety(c)
+	runArgumentLayout(c)
 	// The purego build only swaps the SM3/SM4 primitives under the same generator code: it gets the
 	// quick-tier bounds even in the thorough tier.
 	lite := c.Quick() || c.Config == "c-purego"
